@@ -58,6 +58,36 @@ CHECKS = {
         'correspondence run (all factories equal the same model); argument-form normalisation is C04.',
         'Lean 4 proof (predicates = closure relations, index bijection) + exhaustive small-scope/random differential correspondence',
         'DESIGN.md §6 C03'),
+    'C06': (
+        'Lean 4 theorems over any term list whose CURRENT terms have pairwise distinct primary/alternate ids (obsolete terms '
+        'arbitrary): get_term k = t iff t is current and k is its primary or one of its alternate ids, None otherwise; an obsolete '
+        'term is never returned; len/terms = the current terms; `in` = lookup succeeds; name lookup = lookup then .name; term_ids '
+        'duplicate-free and exactly the primary and alternate ids of current terms. Tie: every collection of <= 2-3 terms over a 5-id '
+        'alphabet, random collections up to 30+10 terms, minimal and full ontologies, queries in 4 argument forms.',
+        'dict semantics ("last write wins") modelled as an association list; ids are the printed CURIE values (C04).',
+        'Lean 4 proof (fold over the binding list) + exhaustive small-scope/random differential correspondence',
+        'DESIGN.md §6 C06'),
+    'C10': (
+        'Lean 4 theorems for ARBITRARY groups / descendant lists / ancestor lists / IC maps (missing entries, non-monotone): same-'
+        'branch pairs read the maximum IC over common ancestors (floor 0), every pair is symmetric, non-negative, bounded by that '
+        'maximum, 0 outside a common branch; only positive values are stored, each once under the ordered key; unstored pairs read 0; '
+        'pairs reached through two branches get the same value. Tie: random HPO-like DAGs with shared descendants and exhaustive '
+        'small parent assignments x IC maps; whole matrix, len and items compared before and after reading every pair.',
+        'IC values are multiples of 1/8 so float max/comparison is exact; graph helpers are C01/C18; Phenotypic abnormality id read '
+        'from the source at run time.',
+        'Lean 4 proof (fold invariant over the visited pairs, container lemmas of C15) + differential correspondence',
+        'DESIGN.md §6 C10'),
+    'C13': (
+        'Lean 4 theorems for EVERY merge trace (the similarity measure, argmax, epsilon branch and cluster identifiers are an '
+        'oracle): the clustering preserves the multiset of tagged leaves, the in-order walk lists each once, the position-queue '
+        'index recovery returns a permutation of 0..n-1 whose image of the input is the in-order sequence; n-1 merges; (0,) for a '
+        'singleton; the result is a function of ids and trace. Tie: permutation-ness, singleton, untouched input, second call, '
+        'TermId vs Identified checked directly; the merge trace is recorded by wrapping Node.make_tagged_node/merge_nodes from '
+        'outside and the exact tuple is compared with the model replaying that trace; several calls share one sorter instance.',
+        'if a refactoring makes the trace unobservable the exact-tuple comparison degrades to a logged count, the relational '
+        'checks remain.',
+        'Lean 4 proof (for all merge traces) + relational/trace-replay correspondence',
+        'DESIGN.md §6 C13'),
     'C14': (
         'Lean 4 theorems, both graph classes: an unknown node (any sort position; uses sortedness of the node array, proved for all '
         'three factories) makes every traversal and is_leaf raise ValueError, predicates raise for an unknown object and answer False '
@@ -68,6 +98,18 @@ CHECKS = {
         'non-CURIE strings are rejected by from_curie (C04); error kind ValueError is pinned, messages are free.',
         'Lean 4 proof (rejection paths, by sortedness + bisect spec) + differential correspondence on rejection inputs',
         'DESIGN.md §6 C14'),
+    'C15': (
+        'Lean 4 theorems: for every history a read (either key order) returns the last ACCEPTED write on the unordered pair, else 0; '
+        'rejected negative sets and reads leave the state unchanged; the item listing has no repeated key, each item is keyed by '
+        'the ordered pair and carries the value a read returns, a pair is listed iff an accepted set addressed it, len = number of '
+        'items; re-inserting the listed items preserves every read (core of the CSV round trip); metadata decode(encode m) = m for '
+        'EVERY table of forbidden characters containing ; = LF CR, the encoded line has no line break, reserved characters are '
+        'rejected. Tie: all histories up to length 3-4 over two keys, random histories with extreme floats; the forbidden table is '
+        'extracted from the running code on every run and TableOk is evaluated by the model; real .csv/.csv.gz round trips.',
+        'floats are mapped to integers by an order-preserving injection (the code only compares with 0 and stores); csv/gzip/'
+        'repr(float) are exercised by the correspondence run, not modelled; keys are CURIE-like (no leading #, no line breaks).',
+        'Lean 4 proof (history machine + codec round trip, parametric in the source-extracted table) + exhaustive/random correspondence',
+        'DESIGN.md §6 C15'),
     'C17': (
         'Lean 4 theorems: for EVERY assignment history (any order, overwrites, out-of-shape attempts) the flat-array builder '
         '(__setitem__ with its scan over the whole column deque) is the CSR form of strictly column-sorted rows that read '
